@@ -22,6 +22,8 @@ def gen(rng, tier):
     names = sorted(G.OPS)
     ctx.enabled = G.swarm_subset(rng, names, 0.75, always=("from_array", "rechunk", "binary", "reduction"))
     ctx.weights = {"random": 0.0, "reduction": 4.5, "window": 2.0, "rechunk": 3.0, "cumulative": 1.5}
+    if rng.random() < 0.08:
+        ctx.weights["window"] = 10.0  # chains of sliding-window reductions (F21)
     ctx.allow_unknown = rng.random() < 0.4
     n = rng.randint(3, 10)
     recipe = G.gen_program(ctx, n, n_leaves=rng.randint(1, 2))
@@ -312,4 +314,5 @@ def candidates(case):
 FINDING_ABLATIONS = {
     "F2b": (H.pre_generic_driver, H.abl_generic_driver),
     "F20": (H.pre_userfn, H.ablate_userfns),
+    "F22": (H.pre_nested_window, H.abl_nested_window),
 }
